@@ -68,10 +68,17 @@ type c14Drv struct {
 
 var methods = []string{"GET", "POST", "PUT", "DELETE", "HEAD", "PATCH", "OPTIONS", "PURGE", "X"}
 
+func bodyContentOf(name string) string {
+	if strings.HasPrefix(name, "empty") {
+		return "" // a body file of zero bytes is still the target's own body
+	}
+	return "body:" + name
+}
+
 func (d *c14Drv) bodyFile(name string) string {
 	p := filepath.Join(d.bodyDir, name)
 	if _, err := os.Stat(p); err != nil {
-		must(os.WriteFile(p, []byte("body:"+name), 0o644))
+		must(os.WriteFile(p, []byte(bodyContentOf(name)), 0o644))
 	}
 	return p
 }
@@ -123,7 +130,8 @@ func (d *c14Drv) concretise(kinds []string, defKeys []string) []tline {
 			// no blank between key and colon: "KEY : v" with an upper-case key reads as a request line (grammar ambiguity, out of domain)
 			ln.text = strings.Repeat(" ", d.r.Intn(2)) + ln.A + ":" + strings.Repeat(" ", d.r.Intn(3)) + ln.B + strings.Repeat(" ", d.r.Intn(2))
 		case "BODY":
-			ln.A = fmt.Sprintf("b%d.txt", d.r.Intn(4))
+			ln.A = []string{"b0.txt", "b1.txt", "b2.txt", "empty.txt"}[d.r.Intn(4)]
+			ln.B = bodyContentOf(ln.A)
 			ln.text = "@" + d.bodyFile(ln.A)
 		case "COM":
 			ln.text = []string{"#", "# a comment", "#GET http://not.a.target/", "  # indented: comment"}[d.r.Intn(4)]
